@@ -541,7 +541,10 @@ def remap_by_types(
                     self._stream = self._stream.MetaData(ast.literal_eval(md))
 
                 scan_for_metadata(r.query_ast, add_md)
-                call_node = fixup_ast_from_modifications(r.query_ast, call_node)
+                # The operator's second argument is the followed lambda: it replaces
+                # the lambda the user wrote (its call sites are the updated ones).
+                call_node = copy.copy(call_node)
+                call_node.args = [r.query_ast.args[1]]  # type: ignore
                 return call_node, Iterable[r.item_type]  # type: ignore
 
             return call_node, r
